@@ -3,7 +3,7 @@
    earlier data (via C01's invariant and C02's frame) are proved; `replay_needs_no_chunk` and
    `reset_loop_converges` are not yet proved and rest on the correspondence check. *)
 From Coq Require Import ZArith List.
-From BS Require Import Word BumpSpec ChunkSpec Arena ArenaInv ArenaStats ArenaMisc.
+From BS Require Import Word BumpSpec ChunkSpec Arena ArenaInv ArenaStats ArenaMisc ArenaExt ArenaInv2.
 Import ListNotations.
 Open Scope Z_scope.
 
@@ -46,7 +46,26 @@ Theorem C03_reset_to_start_releases_none :
   forall c s r, o_events (snd (step c s OResetToStart r)) = [].
 Proof. exact reset_to_start_releases_none. Qed.
 
+(* the Err path of alloc_try_with(_mut): allocate (or prepare), then rewind to where the operation
+   started; every earlier block is still live, valid, aligned and disjoint afterwards *)
+Theorem C03_try_with_err_keeps_invariant :
+  forall c s0 h mutable size align r,
+  cfg_ok c -> inv c s0 -> valid_layout size align -> resp_ok c s0 size align r ->
+  inv c (fst (step c s0 (OTryErr h mutable size align) r)).
+Proof. exact step_inv_try_err. Qed.
+
+(* leaving scoped_aligned with a LOWER alignment inside: alignment back + reset to the guard's
+   checkpoint restore the invariant under the outer alignment *)
+Theorem C03_scoped_aligned_exit_keeps_invariant :
+  forall c s0 r r' h cp inner outer rest,
+  cfg_ok c -> inv c s0 -> aligns s0 = inner :: outer :: rest -> valid_min_align outer ->
+  cp_valid c (fst (step c s0 (OAlignPop false) r)) cp ->
+  inv c (fst (step c (fst (step c s0 (OAlignPop false) r)) (OResetTo h cp) r')).
+Proof. exact scoped_aligned_exit_inv. Qed.
+
 Print Assumptions C03_checkpoint_records_position.
+Print Assumptions C03_try_with_err_keeps_invariant.
+Print Assumptions C03_scoped_aligned_exit_keeps_invariant.
 Print Assumptions C03_reset_to_restores.
 Print Assumptions C03_allocated_restored.
 Print Assumptions C03_reset_to_keeps_invariant.
